@@ -35,7 +35,7 @@ impl<'a> OperationVisitor<'a, ValidationErrorContext> for KnownTypeNames {
     ) {
         let TypeCondition::On(fragment_type_name) = &fragment_definition.type_condition;
 
-        if visitor_context.schema.type_by_name(fragment_type_name).is_none() && !fragment_type_name.starts_with("__") {
+        if visitor_context.schema.type_by_name(fragment_type_name).is_none() && !is_introspection_type_name(fragment_type_name) {
             user_context.report_error(ValidationError {
                 error_code: self.error_code(),
                 locations: vec![fragment_definition.position],
@@ -51,7 +51,7 @@ impl<'a> OperationVisitor<'a, ValidationErrorContext> for KnownTypeNames {
         inline_fragment: &crate::static_graphql::query::InlineFragment,
     ) {
         if let Some(TypeCondition::On(fragment_type_name)) = &inline_fragment.type_condition {
-            if visitor_context.schema.type_by_name(fragment_type_name).is_none() && !fragment_type_name.starts_with("__") {
+            if visitor_context.schema.type_by_name(fragment_type_name).is_none() && !is_introspection_type_name(fragment_type_name) {
                 user_context.report_error(ValidationError {
                     error_code: self.error_code(),
                     locations: vec![inline_fragment.position],
@@ -69,7 +69,7 @@ impl<'a> OperationVisitor<'a, ValidationErrorContext> for KnownTypeNames {
     ) {
         let base_type = variable_definition.var_type.inner_type();
 
-        if visitor_context.schema.type_by_name(base_type).is_none() && !base_type.starts_with("__") {
+        if visitor_context.schema.type_by_name(base_type).is_none() && !is_introspection_type_name(base_type) {
             user_context.report_error(ValidationError {
                 error_code: self.error_code(),
                 locations: vec![variable_definition.position],
@@ -77,6 +77,22 @@ impl<'a> OperationVisitor<'a, ValidationErrorContext> for KnownTypeNames {
             });
         }
     }
+}
+
+/// The types of the introspection system are part of every schema, whether or not the
+/// schema document spells them out.
+fn is_introspection_type_name(name: &str) -> bool {
+    matches!(
+        name,
+        "__Schema"
+            | "__Type"
+            | "__TypeKind"
+            | "__Field"
+            | "__InputValue"
+            | "__EnumValue"
+            | "__Directive"
+            | "__DirectiveLocation"
+    )
 }
 
 impl ValidationRule for KnownTypeNames {
